@@ -278,10 +278,12 @@ fn run_malformed<F: MathFunction>(
     // an error, also when the odd one is an extra; short lengths matter: the
     // JIT copies every caller slice to scratch when n is below the SIMD width
     {
-        let extra = 1 + lens[0] as usize % 3;
+        // (any number of extras: a solver hands every equation one slot per
+        // parameter of the whole system)
+        let extra = [1usize, 2, 3, 4, 5, 8, 17, 39][lens[0] as usize % 8];
         let base = lens[1 % lens.len()] as usize % 20;
         let mut cols: Vec<Vec<f32>> = vec![vec![0.25; base]; n + extra];
-        let odd = lens[2 % lens.len()] as usize % 20;
+        let odd = if lens[2 % lens.len()] % 2 == 0 { base } else { lens[2 % lens.len()] as usize % 20 };
         let which = n + lens[3 % lens.len()] as usize % extra;
         cols[which] = vec![0.25; odd];
         let all_equal = odd == base;
@@ -304,6 +306,23 @@ fn run_malformed<F: MathFunction>(
             r.is_ok()
         );
         cx.ev.count(if all_equal { "extra_slices_equal_cases" } else { "extra_slice_mismatched_cases" });
+        // the tracing evaluators accept extra values too
+        let tp = f.point_tape(Default::default());
+        let mut ep = F::new_point_eval();
+        let r = ep.eval(&tp, &vec![0.25f32; n + extra]).map(|_| ());
+        ensure!(
+            r.is_ok(),
+            format!("extra-values-rejected-{what}"),
+            "point eval rejected {n} variables + {extra} extra values: {r:?}"
+        );
+        let ti = f.interval_tape(Default::default());
+        let mut ei = F::new_interval_eval();
+        let r = ei.eval(&ti, &vec![Interval::from(0.25f32); n + extra]).map(|_| ());
+        ensure!(
+            r.is_ok(),
+            format!("extra-values-rejected-{what}"),
+            "interval eval rejected {n} variables + {extra} extra values: {r:?}"
+        );
     }
     // missing bound variable through the Shape API
     if roots.len() == 1 {
